@@ -25,6 +25,38 @@ pub enum K {
 
 pub const KINDS: [K; 8] = [K::Null, K::Bool, K::Int, K::Str, K::List, K::Obj, K::UFn, K::BFn];
 
+/// representative values: two per data kind (one of them empty / zero / false, so that
+/// shortcuts on "deciding" or "neutral" operands are forced to show)
+pub const VALS: [(K, &str); 12] = [
+    (K::Null, "null"),
+    (K::Bool, "true"),
+    (K::Bool, "false"),
+    (K::Int, "1"),
+    (K::Int, "0"),
+    (K::Str, "\"s\""),
+    (K::Str, "\"\""),
+    (K::List, "[4]"),
+    (K::List, "[]"),
+    (K::Obj, "{\"a\": 5}"),
+    (K::Obj, "{}"),
+    (K::UFn, "uf"),
+];
+pub const VALS_ALL: [(K, &str); 13] = [
+    (K::Null, "null"),
+    (K::Bool, "true"),
+    (K::Bool, "false"),
+    (K::Int, "1"),
+    (K::Int, "0"),
+    (K::Str, "\"s\""),
+    (K::Str, "\"\""),
+    (K::List, "[4]"),
+    (K::List, "[]"),
+    (K::Obj, "{\"a\": 5}"),
+    (K::Obj, "{}"),
+    (K::UFn, "uf"),
+    (K::BFn, "print"),
+];
+
 impl K {
     /// a literal / name denoting a value of the kind
     pub fn expr(self) -> &'static str {
@@ -106,6 +138,13 @@ const CONTEXTS: &[Ctxt] = &[
     Ctxt { name: "list destructuring source", tmpl: "[p] := v; print(p)\n", accept: &[K::List] },
     Ctxt { name: "list collect source", tmpl: "[..p] := v; print(p)\n", accept: &[K::List] },
     Ctxt { name: "object destructuring source", tmpl: "{a} := v; print(a)\n", accept: &[K::Obj] },
+    Ctxt { name: "empty object pattern source", tmpl: "{} := v; print(\"bound\")\n", accept: &[K::Obj] },
+    Ctxt { name: "empty object pattern assignment", tmpl: "{} = v; print(\"bound\")\n", accept: &[K::Obj] },
+    Ctxt { name: "empty list pattern source", tmpl: "[] := v; print(\"bound\")\n", accept: &[K::List] },
+    Ctxt { name: "object collect source", tmpl: "{..p} := v; print(p)\n", accept: &[K::Obj] },
+    Ctxt { name: "nested object pattern source", tmpl: "[q, {}] := [1, v]; print(q)\n", accept: &[K::Obj] },
+    Ctxt { name: "parameter empty object pattern", tmpl: "fn g({}, n) { print(n); }\ng(v, 2)\n", accept: &[K::Obj] },
+    Ctxt { name: "for empty object pattern", tmpl: "for [_, {}] in [v] { print(\"it\"); }\n", accept: &[K::Obj] },
     Ctxt { name: "parameter list pattern", tmpl: "fn g([p]) { print(p); }\ng(v)\n", accept: &[K::List] },
     Ctxt { name: "parameter object pattern", tmpl: "fn g({a}) { print(a); }\ng(v)\n", accept: &[K::Obj] },
     Ctxt { name: "for iterable", tmpl: "for e in v { print(e); }\n", accept: &[K::List, K::Str, K::Obj] },
@@ -129,8 +168,11 @@ const T_CTX: u32 = 3;
 const T_RANGE: u32 = 4;
 const T_TYPE: u32 = 5;
 
-fn kind_idx(k: K) -> usize {
-    KINDS.iter().position(|x| *x == k).unwrap()
+fn vk(i: usize) -> K {
+    VALS_ALL[i].0
+}
+fn vx(i: usize) -> &'static str {
+    VALS_ALL[i].1
 }
 
 impl Check for C16 {
@@ -140,58 +182,46 @@ impl Check for C16 {
 
     fn run(&self, ctx: &mut Ctx) -> Result<(), MachineryError> {
         let mut cases = vec![];
+        let nv = VALS_ALL.len();
         // (1) binary operators in expression form + `..`
         for (oi, op) in BINOPS.iter().enumerate() {
-            for l in KINDS {
-                for r in KINDS {
+            for l in 0..nv {
+                for r in 0..nv {
                     let src = format!(
                         "{}a := {}\nb := {}\nprint(\"pre\")\nprint(a {} b)\n",
-                        PRELUDE,
-                        l.expr(),
-                        r.expr(),
-                        op
+                        PRELUDE, vx(l), vx(r), op
                     );
-                    cases.push(Case::new(
-                        src,
-                        T_BIN,
-                        format!("binop {} {} {}", oi, kind_idx(l), kind_idx(r)),
-                    ));
+                    cases.push(Case::new(src, T_BIN, format!("binop {} {} {}", oi, l, r)));
                     // literal operands (no variables in between)
-                    let src2 = format!("{}print(\"pre\")\nprint({} {} {})\n", PRELUDE, l.expr(), op, r.expr());
-                    cases.push(Case::new(
-                        src2,
-                        T_BIN,
-                        format!("binop {} {} {}", oi, kind_idx(l), kind_idx(r)),
-                    ));
+                    let src2 = format!("{}print(\"pre\")\nprint({} {} {})\n", PRELUDE, vx(l), op, vx(r));
+                    cases.push(Case::new(src2, T_BIN, format!("binop {} {} {}", oi, l, r)));
                 }
             }
         }
-        for l in KINDS {
-            for r in KINDS {
+        for l in 0..nv {
+            for r in 0..nv {
                 let src = format!(
                     "{}a := {}\nb := {}\nprint(\"pre\")\nprint(a .. b)\n",
-                    PRELUDE,
-                    l.expr(),
-                    r.expr()
+                    PRELUDE, vx(l), vx(r)
                 );
-                cases.push(Case::new(src, T_RANGE, format!("range {} {}", kind_idx(l), kind_idx(r))));
+                cases.push(Case::new(src, T_RANGE, format!("range {} {}", l, r)));
             }
         }
         // (2) op-assign forms
         for (oi, op) in ASSIGN_OPS.iter().enumerate() {
-            for l in KINDS {
-                for r in KINDS {
+            for l in 0..nv {
+                for r in 0..nv {
                     let forms = [
-                        format!("x := {}\nb := {}\nprint(\"pre\")\nx {}= b\nprint(x)\n", l.expr(), r.expr(), op),
-                        format!("xs := [0, {}]\nb := {}\nprint(\"pre\")\nxs[1] {}= b\nprint(xs[1])\n", l.expr(), r.expr(), op),
-                        format!("o := {{\"k\": {}}}\nb := {}\nprint(\"pre\")\no.k {}= b\nprint(o[\"k\"])\n", l.expr(), r.expr(), op),
-                        format!("o := {{\"k\": {}}}\nb := {}\nprint(\"pre\")\no[\"k\"] {}= b\nprint(o.k)\n", l.expr(), r.expr(), op),
+                        format!("x := {}\nb := {}\nprint(\"pre\")\nx {}= b\nprint(x)\n", vx(l), vx(r), op),
+                        format!("xs := [0, {}]\nb := {}\nprint(\"pre\")\nxs[1] {}= b\nprint(xs[1])\n", vx(l), vx(r), op),
+                        format!("o := {{\"k\": {}}}\nb := {}\nprint(\"pre\")\no.k {}= b\nprint(o[\"k\"])\n", vx(l), vx(r), op),
+                        format!("o := {{\"k\": {}}}\nb := {}\nprint(\"pre\")\no[\"k\"] {}= b\nprint(o.k)\n", vx(l), vx(r), op),
                     ];
                     for (fi, f) in forms.iter().enumerate() {
                         cases.push(Case::new(
                             format!("{}{}", PRELUDE, f),
                             T_OPASSIGN,
-                            format!("opassign {} {} {} form{}", oi, kind_idx(l), kind_idx(r), fi),
+                            format!("opassign {} {} {} form{}", oi, l, r, fi),
                         ));
                     }
                 }
@@ -199,33 +229,47 @@ impl Check for C16 {
         }
         // (3) typed contexts
         for (ci, c) in CONTEXTS.iter().enumerate() {
-            for k in KINDS {
-                let src = format!("{}v := {}\nprint(\"pre\")\n{}", PRELUDE, k.expr(), c.tmpl);
-                cases.push(Case::new(src, T_CTX, format!("ctx {} {}", ci, kind_idx(k))));
+            for k in 0..nv {
+                let src = format!("{}v := {}\nprint(\"pre\")\n{}", PRELUDE, vx(k), c.tmpl);
+                cases.push(Case::new(src, T_CTX, format!("ctx {} {}", ci, k)));
             }
         }
         // (4) type names
-        for k in KINDS {
-            let src = format!("{}v := {}\nprint(v->type())\n", PRELUDE, k.expr());
-            cases.push(Case::new(src, T_TYPE, format!("type {}", kind_idx(k))));
+        for k in 0..nv {
+            let src = format!("{}v := {}\nprint(v->type())\n", PRELUDE, vx(k));
+            cases.push(Case::new(src, T_TYPE, format!("type {}", k)));
         }
         let n_cases = cases.len();
-        ctx.rule = "complete matrix: 15 binary operators + `..` x 8x8 operand kinds (two spellings), 5 op-assign operators x 4 target forms x 8x8, typed contexts x 8 kinds, ->type() x 8 kinds; a cell is non-trivial always (each is a distinct (operator, kinds, form) tuple); distinct = distinct reference outcome shapes".to_string();
+        ctx.rule = "complete matrix over 13 representative values of the 8 kinds (two per data kind, one of them empty/zero/false): 15 binary operators + `..` x 13x13 operands (two spellings), 5 op-assign operators x 4 target forms x 13x13, typed contexts x 13 values, ->type() x 13; every cell is a distinct (operator, operands, form) tuple and non-trivial".to_string();
         ctx.extra.insert(
             "bounds".into(),
-            json!({"binary_operators": 15, "kinds": 8, "op_assign_operators": 5, "op_assign_forms": 4,
+            json!({"binary_operators": 15, "kinds": 8, "values": nv, "op_assign_operators": 5, "op_assign_forms": 4,
                    "typed_contexts": CONTEXTS.len(), "cells": n_cases}),
         );
         let judged = ctx.judge(cases, |c, r, o| self.oracle(c, r, o))?;
-        // reference and statement table must agree (otherwise the model is wrong: machinery)
+        // reference and statement table must agree on every rejection (otherwise the model is
+        // wrong: machinery); a cell the table accepts may still fail for the value chosen
+        // (missing key, index out of range), but each context must be accepted for some value
+        let mut accepted_ok = std::collections::BTreeMap::<String, bool>::new();
         for j in &judged {
             let table_ok = table_accepts(&j.case);
             let ref_ok = j.r.is_ok();
-            if table_ok != ref_ok {
+            if !table_ok && ref_ok {
                 return Err(MachineryError(format!(
-                    "C16: reference model and statement table disagree on {} ({:?}): table accepts={} reference={}",
-                    j.case.meta, j.case.src, table_ok, ref_summary(&j.r)
+                    "C16: reference model accepts a cell the statement rejects: {} ({:?})",
+                    j.case.meta, j.case.src
                 )));
+            }
+            if table_ok {
+                let p: Vec<&str> = j.case.meta.split(' ').collect();
+                let key = format!("{} {}", p[0], p[1]);
+                let e = accepted_ok.entry(key).or_insert(false);
+                *e = *e || ref_ok;
+            }
+        }
+        for (k, ok) in &accepted_ok {
+            if !*ok && !k.starts_with("type") {
+                return Err(MachineryError(format!("C16: no accepted value succeeds for {}", k)));
             }
         }
         let rejected = judged.iter().filter(|j| !table_accepts(&j.case)).count();
@@ -240,20 +284,23 @@ impl Check for C16 {
         let accept = table_accepts(c);
         let parts: Vec<&str> = c.meta.split(' ').collect();
         if accept {
-            if o.class != Class::Ok {
+            // inside the documented domain: exactly the reference behaviour (the value chosen
+            // may still make the construct fail, e.g. a missing key)
+            let ref_ok = matches!(r.result, RefResult::Ok);
+            if ref_ok != (o.class == Class::Ok) {
                 return viol(
                     "accepted-cell-rejected",
-                    format!("{}: the statement accepts these operand kinds but the run ended {:?}: {}", c.meta, o.class, o.msg),
+                    format!("{}: the statement accepts these operand kinds; reference ends {} but the run ended {:?}: {}", c.meta, if ref_ok { "ok" } else { "with an error" }, o.class, o.msg),
                 );
             }
-            if matches!(r.result, RefResult::Ok) && o.stdout != r.stdout {
+            if o.stdout != r.stdout {
                 return viol(
                     "accepted-cell-wrong-value",
                     format!("{}: output {:?}, reference {:?}", c.meta, o.out_str(), String::from_utf8_lossy(&r.stdout)),
                 );
             }
             if c.tag == T_TYPE {
-                let k = KINDS[parts[1].parse::<usize>().unwrap()];
+                let k = vk(parts[1].parse::<usize>().unwrap());
                 let exp = format!("{}\n", k.tname());
                 if o.out_str() != exp {
                     return viol("type-name", format!("->type() printed {:?}, statement says {:?}", o.out_str(), exp));
@@ -273,9 +320,9 @@ impl Check for C16 {
         }
         if c.tag == T_BIN || c.tag == T_OPASSIGN {
             let (op, l, r_) = if c.tag == T_BIN {
-                (BINOPS[parts[1].parse::<usize>().unwrap()], KINDS[parts[2].parse::<usize>().unwrap()], KINDS[parts[3].parse::<usize>().unwrap()])
+                (BINOPS[parts[1].parse::<usize>().unwrap()], vk(parts[2].parse::<usize>().unwrap()), vk(parts[3].parse::<usize>().unwrap()))
             } else {
-                (ASSIGN_OPS[parts[1].parse::<usize>().unwrap()], KINDS[parts[2].parse::<usize>().unwrap()], KINDS[parts[3].parse::<usize>().unwrap()])
+                (ASSIGN_OPS[parts[1].parse::<usize>().unwrap()], vk(parts[2].parse::<usize>().unwrap()), vk(parts[3].parse::<usize>().unwrap()))
             };
             // message names the operator, then the left kind, then the right kind
             let first_line = o.msg.lines().next().unwrap_or("");
@@ -296,10 +343,6 @@ impl Check for C16 {
                     format!("{}: message {:?} does not name '{}' then '{}' after the operator", c.meta, first_line, l.tname(), r_.tname()),
                 );
             }
-        }
-        if c.tag == T_CTX || c.tag == T_RANGE {
-            // a type diagnostic should name the offending kind when it is a kind mismatch;
-            // the statement only requires a reported type diagnostic here
         }
         Verdict::Pass
     }
@@ -324,7 +367,7 @@ fn find_word(s: &str, w: &str) -> Option<usize> {
 
 fn table_accepts(c: &Case) -> bool {
     let p: Vec<&str> = c.meta.split(' ').collect();
-    let k = |i: usize| KINDS[p[i].parse::<usize>().unwrap()];
+    let k = |i: usize| vk(p[i].parse::<usize>().unwrap());
     match c.tag {
         T_BIN => accepts(BINOPS[p[1].parse::<usize>().unwrap()], k(2), k(3)),
         T_RANGE => accepts("..", k(1), k(2)),
